@@ -84,3 +84,116 @@ def side_state(repo):
     """names of the hook-mode side-state files that currently exist"""
     d = repo.ai_dir()
     return [f for f in SIDE_FILES if os.path.exists(os.path.join(d, f))]
+
+
+# ---------------------------------------------------------------- canonical forms
+def canon_note(text):
+    """An authorship note under the property's equivalence: files → session hash → sorted line set; the prompt
+    records (agent, human author, messages, counters); the base commit. The tool version is dropped."""
+    if text is None:
+        return None
+    n = e2e.parse_note(text)
+    files = {p: {h: sorted(set(ls)) for h, ls in hs.items() if ls} for p, hs in n["files"].items()}
+    files = {p: hs for p, hs in files.items() if hs}
+    meta = n.get("meta") or {}
+    prompts = {}
+    for h, pr in (meta.get("prompts") or {}).items():
+        prompts[h] = {k: pr.get(k) for k in ("agent_id", "human_author", "messages", "total_additions", "total_deletions",
+                                             "accepted_lines", "overriden_lines")}
+    return {"files": files, "prompts": prompts, "base": meta.get("base_commit_sha"), "errors": n["errors"]}
+
+
+def canon_blame(bj):
+    if bj is None:
+        return None
+    lines = e2e.blame_line_hashes(bj)
+    prompts = {}
+    for h, pr in (bj.get("prompts") or {}).items():
+        prompts[h] = {"agent_id": pr.get("agent_id"), "human_author": pr.get("human_author"),
+                      "commits": sorted(pr.get("commits") or []), "other_files": sorted(pr.get("other_files") or [])}
+    return {"lines": {str(k): v for k, v in sorted(lines.items())}, "prompts": prompts}
+
+
+def working_logs(repo):
+    """pending attribution per base commit: INITIAL (file → hash → lines) and, per checkpoint, kind + files"""
+    d = os.path.join(repo.ai_dir(), "working_logs")
+    out = {}
+    try:
+        names = sorted(os.listdir(d))
+    except FileNotFoundError:
+        return out
+    for nm in names:
+        if nm.startswith("old-"):
+            continue
+        ent = {}
+        try:
+            ini = json.load(open(os.path.join(d, nm, "INITIAL")))
+            fs = {}
+            for p, las in (ini.get("files") or {}).items():
+                m = {}
+                for la in las:
+                    m.setdefault(la["author_id"], []).extend(range(la["start_line"], la["end_line"] + 1))
+                fs[p] = {h: sorted(set(v)) for h, v in m.items()}
+            if fs:
+                ent["initial"] = fs
+        except Exception:
+            pass
+        cps = []
+        try:
+            for line in open(os.path.join(d, nm, "checkpoints.jsonl")):
+                line = line.strip()
+                if not line:
+                    continue
+                cp = json.loads(line)
+                files = {}
+                for e in cp.get("entries", []):
+                    m = {}
+                    for la in e.get("line_attributions", []):
+                        m.setdefault(la["author_id"], []).extend(range(la["start_line"], la["end_line"] + 1))
+                    files[e["file"]] = {h: sorted(set(v)) for h, v in m.items()}
+                cps.append({"kind": cp.get("kind"), "files": files})
+        except FileNotFoundError:
+            pass
+        if cps:
+            # the latest entry per file is what a commit will use
+            last = {}
+            for cp in cps:
+                for f, m in cp["files"].items():
+                    last[f] = m
+            ent["latest"] = last
+            ent["n_checkpoints"] = len(cps)
+        if ent:
+            out[nm] = ent
+    return out
+
+
+HANDLED = ("commit", "commit_amend", "merge_squash", "rebase_complete", "cherry_pick_complete")
+
+
+def canon_event(ev):
+    """One rewrite_log line → (kind, payload) keeping exactly what `rewrite_authorship_if_needed` reads
+    (rebase_authorship.rs): kind, commit lists, heads / base. Flags and names the handler ignores
+    (is_interactive, source_branch, base_branch) are dropped. Bookkeeping events → kind only."""
+    if not isinstance(ev, dict) or len(ev) != 1:
+        return ("unparsable", ev)
+    (k, v), = ev.items()
+    if k == "commit":
+        return ("commit", {"base": v.get("base_commit"), "sha": v.get("commit_sha")})
+    if k == "commit_amend":
+        return ("commit_amend", {"orig": v.get("original_commit"), "new": v.get("amended_commit_sha")})
+    if k == "merge_squash":
+        return ("merge_squash", {"source_head": v.get("source_head"), "base_head": v.get("base_head")})
+    if k == "rebase_complete":
+        return ("rebase_complete", {"original_head": v.get("original_head"), "new_head": v.get("new_head"),
+                                    "original_commits": v.get("original_commits"), "new_commits": v.get("new_commits")})
+    if k == "cherry_pick_complete":
+        return ("cherry_pick_complete", {"new_head": v.get("new_head"),
+                                         "source_commits": v.get("source_commits"), "new_commits": v.get("new_commits")})
+    return (k, None)
+
+
+def canon_journal(events, handled_only=True):
+    out = [canon_event(e) for e in events]
+    if handled_only:
+        out = [e for e in out if e[0] in HANDLED]
+    return out
